@@ -24,6 +24,15 @@ def Skel.Declared (ctx : Ctx) : Skel → Prop
   | .abs _ _ b => b.Declared ctx
   | .bound _ => True
 
+/-- no type in the term uses a name reserved for internal type variables (any `?'_t…`) -/
+def Skel.NoReserved : Skel → Prop
+  | .svar _ T => ∀ U, T = some U → U.hasReserved = false
+  | .var _ T => ∀ U, T = some U → U.hasReserved = false
+  | .const _ T => ∀ U, T = some U → U.hasReserved = false
+  | .comb f a => f.NoReserved ∧ a.NoReserved
+  | .abs _ T b => (∀ U, T = some U → U.hasReserved = false) ∧ b.NoReserved
+  | .bound _ => True
+
 theorem Ty.substI_nil : ∀ T : Ty, T.substI [] = T := by
   intro T
   induction T using Ty.induction with
@@ -98,34 +107,34 @@ theorem noInt_con_arg {n : String} {as : List Ty} (h : (Ty.con n as).NoInt) {a :
   exact h a ha
 
 theorem infer_recover (ctx : Ctx) : ∀ (t : Skel) (bd : List Ty) (T : Ty),
-    t.FullyTyped → t.Declared ctx → checkedGetType t bd = some T → (∀ B ∈ bd, B.NoInt) →
+    t.FullyTyped → t.NoReserved → t.Declared ctx → checkedGetType t bd = some T → (∀ B ∈ bd, B.NoInt) →
     T.NoInt ∧ ∃ N, ∀ fuel, N ≤ fuel → ∀ st, infer ctx fuel t.eraseVars bd st = .ok (t, T, st) := by
   intro t
   induction t with
   | svar n T0 =>
-    intro bd T hf hd hc hb
+    intro bd T hf hr hd hc hb
     obtain ⟨U, rfl, hU⟩ := hf
     obtain ⟨U', hU', hl⟩ := hd
     cases hU'
     simp only [checkedGetType, Option.some.injEq] at hc
     subst hc
-    exact ⟨hU, 0, fun fuel _ st => by simp [Skel.eraseVars, infer, hl]⟩
+    exact ⟨hU, 0, fun fuel _ st => by simp [Skel.eraseVars, infer, hl, hr U rfl]⟩
   | var n T0 =>
-    intro bd T hf hd hc hb
+    intro bd T hf hr hd hc hb
     obtain ⟨U, rfl, hU⟩ := hf
     obtain ⟨U', hU', hl⟩ := hd
     cases hU'
     simp only [checkedGetType, Option.some.injEq] at hc
     subst hc
-    exact ⟨hU, 0, fun fuel _ st => by simp [Skel.eraseVars, infer, hl]⟩
+    exact ⟨hU, 0, fun fuel _ st => by simp [Skel.eraseVars, infer, hl, hr U rfl]⟩
   | const n T0 =>
-    intro bd T hf hd hc hb
+    intro bd T hf hr hd hc hb
     obtain ⟨U, rfl, hU⟩ := hf
     simp only [checkedGetType, Option.some.injEq] at hc
     subst hc
-    exact ⟨hU, 0, fun fuel _ st => by simp [Skel.eraseVars, infer]⟩
+    exact ⟨hU, 0, fun fuel _ st => by simp [Skel.eraseVars, infer, hr U rfl]⟩
   | comb f a ihf iha =>
-    intro bd T hf hd hc hb
+    intro bd T hf hr hd hc hb
     simp only [checkedGetType] at hc
     cases hcf : checkedGetType f bd with
     | none => simp [hcf] at hc
@@ -134,8 +143,8 @@ theorem infer_recover (ctx : Ctx) : ∀ (t : Skel) (bd : List Ty) (T : Ty),
       | none => simp [hcf, hca] at hc
       | some aT =>
         simp only [hcf, hca] at hc
-        obtain ⟨hfn, N1, h1⟩ := ihf bd fT hf.1 hd.1 hcf hb
-        obtain ⟨han, N2, h2⟩ := iha bd aT hf.2 hd.2 hca hb
+        obtain ⟨hfn, N1, h1⟩ := ihf bd fT hf.1 hr.1 hd.1 hcf hb
+        obtain ⟨han, N2, h2⟩ := iha bd aT hf.2 hr.2 hd.2 hca hb
         split at hc
         · rename_i d r rest x heq1 heq2
           simp only [Option.some.injEq] at heq1 heq2
@@ -154,7 +163,7 @@ theorem infer_recover (ctx : Ctx) : ∀ (t : Skel) (bd : List Ty) (T : Ty),
           · cases hc
         · cases hc
   | abs x T0 b ih =>
-    intro bd T hf hd hc hb
+    intro bd T hf hr hd hc hb
     obtain ⟨⟨U, rfl, hU⟩, hfb⟩ := hf
     simp only [checkedGetType] at hc
     cases hcb : checkedGetType b (U :: bd) with
@@ -162,7 +171,7 @@ theorem infer_recover (ctx : Ctx) : ∀ (t : Skel) (bd : List Ty) (T : Ty),
     | some bT =>
       simp only [hcb, Option.map_some, Option.some.injEq] at hc
       subst hc
-      obtain ⟨hbn, N, hN⟩ := ih (U :: bd) bT hfb hd hcb
+      obtain ⟨hbn, N, hN⟩ := ih (U :: bd) bT hfb hr.2 hd hcb
         (by intro B hB; rcases List.mem_cons.1 hB with rfl | hB
             · exact hU
             · exact hb B hB)
@@ -170,20 +179,56 @@ theorem infer_recover (ctx : Ctx) : ∀ (t : Skel) (bd : List Ty) (T : Ty),
       · have h1 : U.internals = [] := hU
         have h2 : bT.internals = [] := hbn
         simp [Ty.NoInt, Ty.internals, Ty.internalsL, h1, h2]
-      · simp [Skel.eraseVars, infer, hN fuel hfu st]
+      · simp [Skel.eraseVars, infer, hN fuel hfu st, hr.1 U rfl]
   | bound i =>
-    intro bd T hf hd hc hb
+    intro bd T hf hr hd hc hb
     simp only [checkedGetType] at hc
     exact ⟨hb T (List.mem_of_getElem? hc), 0, fun fuel _ st => by simp [Skel.eraseVars, infer, hc]⟩
 
-theorem typeInfer_recover (ctx : Ctx) (t : Skel) (T : Ty) (hf : t.FullyTyped) (hd : t.Declared ctx)
+theorem headConst_eraseVars_annot : ∀ {l : Skel}, l.FullyTyped → ∀ n, l.eraseVars.headConst ≠ some (n, none) := by
+  intro l
+  induction l with
+  | comb f a ihf _ => intro hf n; simpa [Skel.eraseVars, Skel.headConst] using ihf hf.1 n
+  | const c T =>
+    intro hf n h
+    obtain ⟨U, rfl, -⟩ := hf
+    simp [Skel.eraseVars, Skel.headConst] at h
+  | svar c T => intro _ n h; simp [Skel.eraseVars, Skel.headConst] at h
+  | var c T => intro _ n h; simp [Skel.eraseVars, Skel.headConst] at h
+  | abs x T b _ => intro _ n h; simp [Skel.eraseVars, Skel.headConst] at h
+  | bound i => intro _ n h; simp [Skel.eraseVars, Skel.headConst] at h
+
+/-- a term whose constants are all annotated is not touched by the `defs` pre-step -/
+theorem applyDefs_eraseVars (ctx : Ctx) {t : Skel} (hf : t.FullyTyped) : applyDefs ctx t.eraseVars = .ok t.eraseVars := by
+  simp only [applyDefs]
+  split
+  · rfl
+  · split
+    · rename_i T l r heq
+      split
+      · rename_i n hh
+        exfalso
+        -- t = (equals l0) r0 with l = l0.eraseVars
+        cases t with
+        | comb f a =>
+          cases f with
+          | comb g l0 =>
+            simp only [Skel.eraseVars, Skel.comb.injEq] at heq
+            obtain ⟨⟨-, rfl⟩, -⟩ := heq
+            exact headConst_eraseVars_annot hf.1.2 n hh
+          | _ => simp [Skel.eraseVars] at heq
+        | _ => simp [Skel.eraseVars] at heq
+      · rfl
+    · rfl
+
+theorem typeInfer_recover (ctx : Ctx) (t : Skel) (T : Ty) (hf : t.FullyTyped) (hr : t.NoReserved) (hd : t.Declared ctx)
     (hc : checkedGetType t [] = some T) :
     ∃ N, ∀ fuel, N ≤ fuel → typeInfer ctx fuel true t.eraseVars = .ok t := by
-  obtain ⟨-, N, hN⟩ := infer_recover ctx t [] T hf hd hc (by intro B hB; cases hB)
+  obtain ⟨-, N, hN⟩ := infer_recover ctx t [] T hf hr hd hc (by intro B hB; cases hB)
   refine ⟨N + 1, fun fuel hfu => ?_⟩
   obtain ⟨f, rfl⟩ : ∃ f, fuel = f + 1 := ⟨fuel - 1, by omega⟩
   have e := hN (f + 1) (by omega) St.empty
-  simp only [typeInfer, e]
+  simp only [typeInfer, applyDefs_eraseVars ctx hf, e]
   simp [finish, St.empty, unspecOf, finalLoop, pass, Skel.substI_nil]
 
 end Holpy.C08
